@@ -139,8 +139,10 @@ func sloppyLen(m dsl.Matcher) {
 //doc:before  *tmp = *x; *x = *y; *y = *tmp
 //doc:after   *x, *y = *y, *x
 func valSwap(m dsl.Matcher) {
+	// If one operand is used inside the other (i and a[i]), the parallel
+	// assignment evaluates the index with the old value: not the same code.
 	m.Match(`$tmp := $y; $y = $x; $x = $tmp`).
-		Where(m["x"].Pure && m["y"].Pure).
+		Where(m["x"].Pure && m["y"].Pure && !m["x"].Contains(`$y`) && !m["y"].Contains(`$x`)).
 		Report("can re-write as `$y, $x = $x, $y`")
 }
 
